@@ -45,8 +45,8 @@ def gen_cases(tier, seed):
             d["max_errors"] = r.choice([None, 0, 1, 2, 5])
             d["perturb"] = r.choice(["instr", "none"]) if W > 1 else "none"
         elif mode == "retry":
-            d["retry"] = r.choice([1, 2, 3, 5, "custom2", "custom4"])
-            d["faults"] = {"p": r.choice([0.2, 0.5]), "kinds": r.choice([["exc", "value"], ["exc", "value", "callerr"], ["callerr"]]), "flaky": True, "max_flaky": r.choice([1, 2, 3, 6])}
+            d["retry"] = r.choice([1, 2, 3, 5, 6, 8, "custom2", "custom4"])
+            d["faults"] = {"p": r.choice([0.2, 0.5]), "kinds": r.choice([["exc", "value"], ["exc", "value", "callerr"], ["callerr"]]), "flaky": True, "max_flaky": r.choice([1, 2, 3, 6, 9])}
             d["max_errors"] = r.choice([None, 0])
             d["perturb"] = r.choice(["instr", "none"]) if W > 1 else "none"
         elif mode == "stale":
@@ -69,11 +69,11 @@ def gen_cases(tier, seed):
     for i in range(max(16, n // 40)):
         s = env.seed_for(seed, ID, tier, "retry_callables", i)
         r = random.Random(env.seed_for(s, "descriptor"))
-        out.append({"seed": s, "mode": "retry_callables", "n": r.randint(2, 6), "W": r.choice([1, 2, 4]), "sched": r.choice(["default", "random"]), "attempts": r.choice([2, 3, 4])})
+        out.append({"seed": s, "mode": "retry_callables", "n": r.randint(2, 6), "W": r.choice([1, 2, 4]), "sched": r.choice(["default", "random"]), "attempts": r.choice([2, 3, 4, 7])})
     for i in range(max(20, n // 25)):
         s = env.seed_for(seed, ID, tier, "retry_shared", i)
         r = random.Random(env.seed_for(s, "descriptor"))
-        out.append({"seed": s, "mode": "retry_shared", "n": r.randint(2, 7), "W": r.choice([1, 2, 4]), "sched": r.choice(["default", "random"]), "attempts": r.choice([2, 3, 4])})
+        out.append({"seed": s, "mode": "retry_shared", "n": r.randint(2, 7), "W": r.choice([1, 2, 4]), "sched": r.choice(["default", "random"]), "attempts": r.choice([2, 3, 4, 7])})
     # "at most k + max_workers calls fail" for every preemption of the worker whose failure crosses the limit (vmon/preempt.py): it is held at
     # every instruction of its failure bookkeeping while a dozen more failing calls are ready
     combos = [(me, W, sc) for me in (0, 1, 2, 5) for W in (2, 3, 4) for sc in ("default", "random")]
